@@ -18,9 +18,9 @@ CLAIMED = {
     'C11': dict(engine='A', technique=TECH_A + '; calendar abstraction with discharged contracts, case split on months', ref='DESIGN.md section 4, C11', note=NOTE_A,
                 text='For all 9 notation pairs: windows and error kinds; soundness (no accepted rule flips any of the three order relations between two symbolic years, all i32 years); completeness (refused as inconsistent => flips among the concrete witness years 2001..2029); unreachable!() and all arithmetic obligations.'),
     'C12': dict(engine='B', technique=TECH_B, ref='DESIGN.md section 4, C12', note=NOTE_B,
-                text='Every leap table of <= 3 records accepted by the real constructor x every i64 instant/count: both conversions against a declarative "correction in force" specification, monotonicity, round trip, Galois connection with transition counts, public lookup switch instant.'),
+                text='Every leap table of <= 3 records accepted by the real constructor x every i64 instant/count: both conversions against a declarative "correction in force" specification, monotonicity, round trip, Galois connection with transition counts, public lookup switch instant; the leap-table binary search for every length 0..64.'),
     'C03': dict(engine='B', technique=TECH_B, ref='DESIGN.md section 4, C03', note=NOTE_B,
-                text='Every table of <= 6 (thorough 8, optionally 12) transitions accepted by the real constructor, 3 distinguishable types, rule none/Fixed, with and without <= 3 leap records, every i64 instant: the binary-search lookup returns the reference scan\'s type by pointer identity; DateTime::from_timespec = lookup + fields of t+offset (S_pack).'),
+                text='The binary-search helper and the lookup for every table length 0..64 (fixed increasing times, symbolic key); every table of <= 6 (thorough 8, optionally 12) transitions with symbolic contents accepted by the real constructor, 1..3 types, 3 distinguishable types, rule none/Fixed, with and without <= 3 leap records, every i64 instant: the binary-search lookup returns the reference scan\'s type by pointer identity; DateTime::from_timespec = lookup + fields of t+offset (S_pack).'),
     'C05': dict(engine='B', technique=TECH_B + '; civil time abstracted to its second count (contracts C01/C02)', ref='DESIGN.md section 4, C05/C06', note=NOTE_B,
                 text='Search vs forward lookup on every table zone up to the bound (<= 2 transitions quick, 3 thorough; + Fixed rule; leap variant), every civil second count and every instant: soundness, completeness, no duplicate valid instants, unique(); the caller\'s buffer holds stale entries. DST-rule zones (thorough): the real search over abstract rule-day instants obeying contracts discharged in C04, against the real lookup (c05_rule_abstract) and against the C04 specification (c05_rulespec_*).'),
     'C06': dict(engine='B', technique=TECH_B + '; civil time abstracted to its second count (contracts C01/C02)', ref='DESIGN.md section 4, C05/C06', note=NOTE_B,
@@ -28,7 +28,7 @@ CLAIMED = {
     'C07': dict(engine='AB', technique=TECH_A + ' for every overflow/bounds/division/cast/unreachable/unwinding site; ' + TECH_B + ' default checks', ref='DESIGN.md section 4, C07', note=NOTE_A + ' ' + NOTE_B,
                 text='Panic-freedom as proof obligations: all arithmetic kernels for ALL inputs (Engine A), table/constructor/search/parser units under CBMC\'s checks with unwinding assertions (Engine B); allocation bounded by bytes present (layout harness).'),
     'C08': dict(engine='B', technique=TECH_B + '; unit contracts + composition with abstracted callees', ref='DESIGN.md section 4, C08', note=NOTE_B + ' Paper step: units = reference and composition = reference composition => whole decoder = reference.',
-                text='Real parse_header (all buffers <= 46 B), read_data_blocks::<4>/<8> (all u32 counts), DataBlocks::parse on minimal shapes with symbolic bytes, parse_footer framing, and parse_tz_file on arbitrary <= 112-byte files with record decoding abstracted, each against an RFC 8536 reference typed in the harness.'),
+                text='Real parse_header (all buffers <= 46 B), read_data_blocks::<4>/<8> (all u32 counts), DataBlocks::parse on minimal shapes with symbolic bytes (incl. a 10-byte designation table: every designation length at every index), parse_footer framing, and parse_tz_file on arbitrary <= 112-byte files with record decoding abstracted, each against an RFC 8536 reference typed in the harness.'),
     'C09': dict(engine='B', technique=TECH_B + '; unit contracts + composition with abstracted callees', ref='DESIGN.md section 4, C09', note=NOTE_B + ' S_utf8 stub discharged on <= 3 arbitrary bytes.',
                 text='Each TZ-string sub-parser on arbitrary ASCII bytes up to its longest sentence (5..10 bytes) against a reference recogniser (accept/reject, value, bytes consumed); parse_posix_tz on <= 6 arbitrary bytes with abstracted callees against a replay of the grammar on the call log (negation, default DST offset, default 02:00, separators, trailing data); rule times additionally through parse_rule_block with the real time parsers behind it (harnesses that survive refactors of the private units).'),
     'C13': dict(engine='AB', technique=TECH_B + '; ' + TECH_A + ' for the designation / local-time-type constructors', ref='DESIGN.md section 4, C13', note=NOTE_B + ' ' + NOTE_A,
